@@ -334,7 +334,7 @@ def run(sched):
                 w.loop.call_later(rule.get("delay", 5) / 1024.0, inject_rx, rx)
                 break
 
-    def on_read(data, src, anc):
+    def on_read(data, src, anc, ctxname=""):
         r = rnum(src)
         loc = "u"
         for lvl, typ, cdata in anc:
@@ -346,7 +346,7 @@ def run(sched):
             ev("rx", r=r, ty="?", cls="unparsable", loc=loc)
             return
         f = msg_fields(m, data)
-        q = q_of(r, m["token"]) if f["cls"] == "resp" else 0
+        q = q_of(r, m["token"], ctxname) if f["cls"] == "resp" else 0
         h = 0
         path = wire.opts(m, wire.URI_PATH)
         if len(path) == 2 and path[0] == b"h" and path[1].isdigit():
@@ -362,6 +362,8 @@ def run(sched):
             elif names.get(f["code"]) not in plan.get("methods", list(names.values())):
                 x = "unimpl"
         ckq = f.pop("ckq")
+        if ctxname:
+            x = ctxname
         ev("rx", r=r, q=q, loc=loc, h=h, x=x, ck=h * 10 + ckq, **f)
 
     w.net.on_sent = on_sent
@@ -377,6 +379,8 @@ def run(sched):
                 w.patch(TransportTuning, k, v)
 
         class Scripted(resource.Resource):
+            mark = "u"
+
             def __init__(self, n, plan):
                 super().__init__()
                 self.n = n
@@ -412,6 +416,7 @@ def run(sched):
                     code=int(request.code),
                     plen=len(request.payload),
                     x=zlib_hex(request.payload),
+                    loc=self.mark,
                     **body_fields(request, r, self.n),
                 )
                 delay = self.plan.get("delay", 0)
@@ -426,14 +431,14 @@ def run(sched):
                             await asyncio.sleep(delay / 1024.0)
                         outcome = self.plan.get("outcome", "ok")
                 except asyncio.CancelledError:
-                    ev("cancelled", h=self.n, inv=inv)
+                    ev("cancelled", h=self.n, inv=inv, loc=self.mark)
                     raise
                 lens = self.plan.get("lens")
                 plan = self.plan
                 if lens:
                     self.count = getattr(self, "count", 0) + 1
                     plan = dict(self.plan, len=lens[(self.count - 1) % len(lens)])
-                ev("release", h=self.n, inv=inv, x=outcome, plen=plan.get("len", 8) if plan.get("canon") else 0)
+                ev("release", h=self.n, inv=inv, x=outcome, plen=plan.get("len", 8) if plan.get("canon") else 0, loc=self.mark)
                 return produce(outcome, self.n, inv, plan)
 
         def body_fields(request, r, n):
@@ -469,6 +474,13 @@ def run(sched):
                 raise {"KeyError": KeyError, "AssertionError": AssertionError, "ValueError": ValueError, "RuntimeError": RuntimeError, "Exception": Exception}[outcome[9:]](SECRET)
             if outcome.startswith("raise:"):
                 raise getattr(error, outcome[6:])()
+            if outcome == "unencodable:payload":
+                # passes Resource.render and the block-wise helpers, but cannot be serialised
+                return Message(code=Code.CONTENT, payload=SECRET)
+            if outcome == "unencodable:option":
+                m_ = Message(code=Code.CONTENT, payload=body)
+                m_.opt.max_age = -1
+                return m_
             if outcome == "ret:none":
                 return None
             if outcome == "ret:str":
@@ -537,8 +549,27 @@ def run(sched):
         other = None
         state["other_sock"] = None
         if sched.get("other_context"):
-            other = await w.make_context(name="other")
-            state["other_sock"] = other._verif["sock"]
+            # a second, independent context in the same loop; with "other_handlers" it serves resources too
+            # (their handler events carry loc = "o", its datagrams x = "other")
+            site2 = None
+            if sched.get("other_handlers"):
+                site2 = resource.Site()
+                for n, plan in sched["other_handlers"].items():
+                    res2 = Scripted(int(n), plan)
+                    res2.mark = "o"
+                    site2.add_resource(["h", str(n)], res2)
+            other = await w.make_context(name="other", site=site2)
+            osock = other._verif["sock"]
+            state["other_sock"] = osock
+            o_recvmsg = osock.recvmsg
+
+            def other_recvmsg(bufsize, ancbufsize=0, flags=0):
+                res = o_recvmsg(bufsize, ancbufsize, flags)
+                if not (flags & 8192):
+                    on_read(res[0], res[3], res[1], ctxname="other")
+                return res
+
+            osock.recvmsg = other_recvmsg
 
         last_at = 0
         for step in sched["steps"]:
